@@ -982,6 +982,18 @@ class AgentSchedulingComponent(rpu.AgentComponent):
                     task['partition'] = td['partition']
                     task['resources'] = {'cpu': td['ranks'] * td['cores_per_rank'],
                                          'gpu': td['ranks'] * td['gpus_per_rank']}
+
+                    # mark the slots as used and count the task as active:
+                    # `unschedule_task` will free them and decrease the count
+                    # once the task completes
+                    try:
+                        self._change_slot_states(task['slots'], rpc.BUSY)
+                    except Exception as e:
+                        self._fail_task(task, e,
+                                        '\n'.join(ru.get_exception_trace()))
+                        continue
+                    self._active_cnt += 1
+
                     self.advance(task, rps.AGENT_EXECUTING_PENDING,
                                  publish=True, push=True, fwd=True)
                     continue
